@@ -325,11 +325,14 @@ fn eval_wrapped(
     }
 }
 
-/// Record the case a worker is about to evaluate, so that the driver can re-run it in a fresh
-/// process if this one dies on a signal (stack overflow / abort).
+// Record the case a worker is about to evaluate, so that the driver can re-run it in a fresh
+// process if this one dies on a signal (stack overflow / abort).
+thread_local! {
+    static INFLIGHT_FILE: std::cell::RefCell<Option<(String, std::fs::File)>> = const { std::cell::RefCell::new(None) };
+}
+
 fn write_inflight(prop: &str, stratum: &str, worker: usize, input: &Input) {
-    let dir = verif_dir().join("work");
-    let path = dir.join(format!("inflight-{prop}-{worker}.json"));
+    use std::os::unix::fs::FileExt;
     let body = match input {
         Input::Tape(t) => format!(
             "{{\"property\":\"{prop}\",\"stratum\":\"{stratum}\",\"tape\":\"{}\",\"message\":\"in flight when the process died\",\"signature\":\"crash\"}}",
@@ -339,7 +342,18 @@ fn write_inflight(prop: &str, stratum: &str, worker: usize, input: &Input) {
             "{{\"property\":\"{prop}\",\"stratum\":\"{stratum}\",\"index\":{i},\"message\":\"in flight when the process died\",\"signature\":\"crash\"}}"
         ),
     };
-    let _ = std::fs::write(path, body);
+    let name = format!("inflight-{prop}-{worker}.json");
+    INFLIGHT_FILE.with(|f| {
+        let mut f = f.borrow_mut();
+        if f.as_ref().map(|(n, _)| n != &name).unwrap_or(true) {
+            let path = verif_dir().join("work").join(&name);
+            *f = std::fs::File::create(path).ok().map(|file| (name.clone(), file));
+        }
+        if let Some((_, file)) = f.as_ref() {
+            let _ = file.write_all_at(body.as_bytes(), 0);
+            let _ = file.set_len(body.len() as u64);
+        }
+    });
 }
 
 fn clear_inflight(prop: &str) {
@@ -617,6 +631,7 @@ fn run_stratum(
 }
 
 pub fn run_property(prop: &dyn Property, tier: Tier, seed: u64) -> i32 {
+    std::env::set_var("VERIF_TIER", tier.name());
     let t0 = Instant::now();
     let findings = load_findings();
     let mine: Vec<&Finding> = findings.iter().filter(|f| f.property == prop.id()).collect();
